@@ -9,10 +9,17 @@ def countWake (ws : List Wake) (w : Wake) : Nat := (ws.filter (· == w)).length
 def showTx (t : TxRing) (ws : List Wake) : String :=
   s!"dw={countWake ws .dispatcher} ww={countWake ws .writer} len={t.ring.length} cap={t.cap}"
 
+/-- The write half may be polled by two different tasks (wakers A = 1 and B = 2). The stored waker is the one of
+the latest poll that registered (`update_optional_waker` replaces it); a self-wake goes to the current poller.
+`who` = to whom this op's writer wake-ups go. -/
+def showTx2 (t : TxRing) (ws : List Wake) (who : Nat) : String :=
+  let n := countWake ws .writer
+  s!"dw={countWake ws .dispatcher} ww={if who = 2 then 0 else n} wb={if who = 2 then n else 0} len={t.ring.length} cap={t.cap}"
+
 def showFlush : FlushRes → String
   | .ok => "ok" | .pending => "pending" | .errDied => "err:socket-died"
 
-def stepTxRing (t : TxRing) (pos : Nat) (args : List String) : TxRing × String :=
+def stepTxRing1 (t : TxRing) (pos : Nat) (args : List String) : TxRing × String :=
   -- a dropped write half cannot be called any more (Rust ownership): reject, never default
   if t.writerDropped ∧ (args.head? ∈ [some "write", some "writepos", some "flush", some "shutdown", some "dropw"]) then (t, "bad-op") else
   match args with
@@ -59,5 +66,32 @@ def stepTxRing (t : TxRing) (pos : Nat) (args : List String) : TxRing × String 
     | _, _ => (t, "bad-op")
   | ["flags"] => (t, s!"dropped={bool01 t.writerDropped} shutdown={bool01 t.writerShutdown}")
   | _ => (t, "bad-op")
+
+/-- wrapper tracking which task's waker is stored (driver-level: the model's `writerWaker` is a flag) -/
+def stepTxRing (t : TxRing) (pos : Nat) (lastW : Nat) (args : List String) : TxRing × String × Nat :=
+  match args with
+  | ["new", _] => let (t', o) := stepTxRing1 t pos args; (t', o.replace " ww=0 " " ww=0 wb=0 ", 1)
+  | ["writeposb", n] =>
+    if t.writerDropped then (t, "bad-op", lastW) else
+    match nat? n with
+    | some n =>
+      let b := (List.range n).map (fun j => ((pos + j) * 7 + 3) % 251)
+      let (t', r, ws) := t.pollWrite b
+      let rs := match r with
+        | .ready k => s!"ready:{k}" | .pending => "pending" | .errClosed => "err:socket-closed"
+        | .errShutdown => "err:after-shutdown" | .errDropped => "err:dropped"
+      -- a Pending write registered (or kept) its waker: it is B's now
+      (t', s!"{rs} {showTx2 t' ws 2}", if r = .pending ∧ t'.writerWaker then 2 else lastW)
+    | none => (t, "bad-op", lastW)
+  | _ =>
+    let (t', o) := stepTxRing1 t pos args
+    -- re-render the wake counts with the attribution; writer-side polls by A register A
+    let isPollA := args.head? ∈ [some "write", some "writepos", some "flush", some "shutdown"]
+    let lastW' := if isPollA ∧ t'.writerWaker ∧ (o.startsWith "pending") then 1 else lastW
+    let who := if isPollA then 1 else lastW
+    let o' := if who = 2 then (o.replace " ww=1 " " ww=0 wb=1 ").replace " ww=2 " " ww=0 wb=2 " else
+      ((o.replace " ww=0 " " ww=0 wb=0 ").replace " ww=1 " " ww=1 wb=0 ").replace " ww=2 " " ww=2 wb=0 "
+    let o'' := if who = 2 then o'.replace " ww=0 len" " ww=0 wb=0 len" else o'
+    (t', o'', lastW')
 
 end UtpVerif.Driver
